@@ -228,3 +228,41 @@ func TestVerifEngineChain(t *testing.T) {
 		})
 	}
 }
+
+// The timeout response has to be deliverable: net/http stops writing to a connection once the
+// server's WriteTimeout (counted from the end of the request header) has passed, and the 503 of
+// the timeout guard is written Timeout after the handler started, i.e. later than that.  For
+// every Timeout setting the server the engine configures must therefore allow writes for longer
+// than the guard's deadline; otherwise neither the timeout response nor the response of a
+// handler finishing shortly before its deadline reaches the client (it sees the connection
+// closed instead).  This is a relation between two settings the engine derives from one
+// configuration value, checked for each value; the behaviour of net/http itself is taken from
+// its documentation.
+func TestVerifServerWriteTimeout(t *testing.T) {
+	defer vrt.WriteReport()
+	logx.Disable()
+	if !vrt.Shard(310) {
+		return
+	}
+	c := vrt.NewCases("guards/server-write-timeout")
+	for _, ms := range []int64{1, 2, 5, 10, 50, 99, 100, 999, 1000, 3000, 30000, 600000} {
+		ng := newEngine(Config{Timeout: ms})
+		svr := &http.Server{}
+		ng.withTimeout()(svr)
+		guard := time.Duration(ms) * time.Millisecond
+		in := fmt.Sprintf("Timeout=%dms", ms)
+		c.Eval(in, func() any {
+			return map[string]any{"timeout_ms": ms, "server_write_timeout": svr.WriteTimeout.String(), "server_read_timeout": svr.ReadTimeout.String()}
+		})
+		if svr.WriteTimeout != 0 && svr.WriteTimeout <= guard {
+			c.Violation(in, "write timeout before the guard's deadline", fmt.Sprintf("the timeout guard answers 503 after %v, but the server stops writing to the connection %v after the request header: the client gets no response", guard, svr.WriteTimeout))
+		}
+	}
+	ng := newEngine(Config{Timeout: 0})
+	svr := &http.Server{}
+	ng.withTimeout()(svr)
+	if svr.WriteTimeout != 0 || svr.ReadTimeout != 0 {
+		c.Violation("Timeout=0", "no timeout configured", fmt.Sprintf("server timeouts %v/%v set although no timeout is configured", svr.ReadTimeout, svr.WriteTimeout))
+	}
+	c.Done()
+}
